@@ -141,9 +141,33 @@ def guarded(fn, *a, **k):
         raise FlowdynRaised("%s: %s" % (type(ex).__name__, str(ex)[:120]))
 
 
-def run_rhs_table(xf_or_mesh, data, recon_name, bcl, bcr, flux, source=None):
+def prime_1d(m, recon_name, bcl, bcr):
+    """history: the (pooled) reconstruction object first serves a SIBLING mesh -- same cell count, same origin, same length,
+    different spacing -- so that nothing remembered from an earlier mesh may leak into the evaluation that is judged
+    (the operator is a function of its arguments, not of what the reconstruction object did before)"""
+    n = m.ncell
+    if n < 2:
+        return
+    try:
+        xf = np.asarray(m.xf, dtype=float)
+        xi = np.linspace(0.0, 1.0, n + 1)
+        faces = xf[0] + (xf[-1] - xf[0]) * (xi + 0.3 * xi * (1.0 - xi))
+        faces[-1] = xf[-1]
+        sib = fd.mesh_from_faces(faces)
+        if hasattr(m, "length"):
+            sib.length = m.length
+        model = TableModel(TableFlux(seed=1))
+        disc = fd.modeldisc.fvm(model, sib, fd.recon(recon_name), bcL=bc_dict(bcl), bcR=bc_dict(bcr))
+        disc.rhs(fd.field.fdata(model, sib, [np.linspace(-1.0, 2.0, n)]))
+    except Exception:
+        pass
+
+
+def run_rhs_table(xf_or_mesh, data, recon_name, bcl, bcr, flux, source=None, prime=True):
     """one real rhs evaluation with the table-flux model; returns (mesh, residual, pL, pR, fluxarray, model)"""
     m = xf_or_mesh if hasattr(xf_or_mesh, "ncell") else fd.mesh_from_faces(xf_or_mesh)
+    if prime:
+        prime_1d(m, recon_name, bcl, bcr)
     model = TableModel(flux, source=source)
     try:
         disc = fd.modeldisc.fvm(model, m, fd.recon(recon_name), bcL=bc_dict(bcl), bcR=bc_dict(bcr))
